@@ -150,7 +150,7 @@ fn binary_uint(input: &mut LineReader) -> Result<usize, ParseError> {
             if byte & 0x80 == 0 {
                 break;
             }
-            if byte_len == (usize::BITS as usize + 7) / 8 {
+            if byte_len == (usize::BITS as usize + 6) / 7 {
                 return Err(input.give_up(
                     "binary encoded value uses more bytes than required for any supported value",
                 ));
